@@ -35,6 +35,21 @@ def run_config(ctx, name, spellings, speclists, steps):
                           preload=('quantity', 'quantity.money'), replay_info=dict(cfg=cfg))
 
 
+def fixpoint(ctx, name, spellings, speclists):
+    """RateTable without the step bound: the table is a finite set (periods x currencies x rates of the menu), so TLC
+    reaches the fixpoint - every history of ANY length over the menu - and checks the invariants and the action
+    property on it (model level; the binding is through the step-bounded graphs)."""
+    cfg = open(tlc.SPEC_DIR + '/cfg/RateTable.cfg').read()
+    cfg = cfg.replace('@SP@', '{' + ', '.join('"%s"' % s for s in spellings) + '}')
+    cfg = cfg.replace('@SL@', '{' + ', '.join('"%s"' % s for s in speclists) + '}').replace('@STEPS@', '0')
+    cfg = cfg.replace('CONSTRAINT Bound\n', '')
+    r = tlc.run('RateTable', cfg_text=cfg, tag='RateTable-fixpoint-' + name, timeout=3000)
+    ctx.add_tlc(r, 'RateTable fixpoint [%s] (no step bound): %d spellings x %d rate-spec lists, all histories of any length; '
+                   'ObsIsFunctionOfState OneKind PeriodIsolation Reciprocal RejectedUpdateNoChange' % (
+                       name, len(spellings), len(speclists)), exhaustive=True)
+    return r
+
+
 def rejected_updates(ctx):
     quick = ctx.tier == 'quick'
     run_config(ctx, 'rejects', ['none', 'y2020', 'y0', 'sybad', 'm13', 'sm13', 'sdbad', 's4', 'flt', 'm2020_1'],
